@@ -105,7 +105,7 @@ def gen_table(rng, fmin, fmax, lo, hi, nmin, cover=True):
     return {'value': [rng.uniform(lo, hi) for _ in fr], 'frequency': fr}
 
 
-def gen_fiber_params(rng, fmin, fmax, lmin=1e-3, lmax=300.0, stream='valid', p_dup=0.04):
+def gen_fiber_params(rng, fmin, fmax, lmin=1e-3, lmax=300.0, stream='valid', p_dup=0.04, p_disp_table=0.2):
     """params dict as accepted by Fiber(params=...) / a topology JSON; all values plain floats"""
     if rng.random() < 0.15:
         L = rng.choice([80.0, 100.0, 50.0, max(lmin, 0.001), lmax])
@@ -129,7 +129,7 @@ def gen_fiber_params(rng, fmin, fmax, lmin=1e-3, lmax=300.0, stream='valid', p_d
         p['ref_frequency'] = rng.uniform(fmin, fmax)
     elif r < 0.3:
         p['ref_wavelength'] = rng.uniform(1530e-9, 1565e-9)
-    dk = rng.choice(['default', 'scalar', 'scalar', 'slope', 'table'])
+    dk = 'table' if rng.random() < p_disp_table else rng.choice(['default', 'scalar', 'scalar', 'slope'])
     if stream == 'disp_table_short':
         dk = 'table'
     if dk == 'scalar':
@@ -195,9 +195,8 @@ def gen_eqpt(rng, base):
 
 def gen_path_case(rng, base_eq, max_units=None):
     eq = gen_eqpt(rng, base_eq)
-    spec = gen_spectrum(rng, 191.4e12, 196.0e12, nmax=6)
+    spec = gen_spectrum(rng, 191.4e12, 196.0e12, nmax=4)
     spec['p'] = [1e-3 for _ in spec['f']]
-    fmin, fmax = min(spec['f']), max(spec['f'])
     nseg = rng.choice([1, 1, 2, 3]) if max_units is None else 1
     els, conns = [], []
 
@@ -215,7 +214,9 @@ def gen_path_case(rng, base_eq, max_units=None):
         ns = rng.randint(1, 4) if max_units is None else rng.randint(2, max_units)
         for s in range(ns):
             f = f'fiber{k}_{s}'
-            add(f, 'Fiber', type_variety='SSMF', params=gen_fiber_params(rng, fmin, fmax, lmin=1.0, lmax=110.0, p_dup=0.0))
+            # the design evaluates every fibre over the whole SI band: tables must cover it
+            add(f, 'Fiber', type_variety='SSMF', params=gen_fiber_params(rng, 191.2e12, 196.2e12, lmin=1.0, lmax=110.0, p_dup=0.0,
+                                                                         p_disp_table=0.08))
             els[-1]['params'].pop('pmd_coef') if rng.random() < 0.5 else None
             conns.append((prev, f))
             prev = f
@@ -595,11 +596,11 @@ def band_value(bands, key, f):
     return None
 
 
-def drive_path(ctx, case):
+def drive_path(ctx, case, built):
     """propagate the designed path element by element; oracle after every element; returns (term, final obs)"""
     from gnpy.core.elements import Fiber, Transceiver
     cs = strip(case)
-    eq, path = build_path(case)
+    eq, path = built
     desc = describe_path(eq, case, path)
     spec = case['spectrum']
     si = make_si(spec)
@@ -943,7 +944,13 @@ def run(ctx):
                 post.append((diff_fiber, c, obs))
             elif kind in ('path', 'perm'):
                 try:
-                    term, final, path, desc = drive_path(ctx, c)
+                    built = build_path(c)
+                except Exception as e:       # a design-time failure is not this property's business; counted, and bounded below
+                    ctx.count('path_design_exception')
+                    ctx.count('path_design_exception_' + type(e).__name__)
+                    continue
+                try:
+                    term, final, path, desc = drive_path(ctx, c, built)
                 except Exception as e:
                     ctx.violation('path_exception', f'{type(e).__name__}: {e}', cs)
                     continue
@@ -977,7 +984,10 @@ def run(ctx):
                 ctx.case(cs, True)
             else:
                 raise ValueError(f'unknown case kind {kind}')
-    lines = common.coq_eval('C05', 'Prelude Model.Fiber Run.C05', terms, per_file=ctx.scale(40, 120), prelude='Open Scope Q_scope.')
+    npath = ctx.counters.get('kind_path', 0) + ctx.counters.get('kind_perm', 0)
+    if not ctx.replay and ctx.counters.get('path_design_exception', 0) > 0.2 * max(npath, 1):
+        raise RuntimeError('more than 20% of the generated line systems could not be designed: generator broken')
+    lines = common.coq_eval('C05', 'Prelude Model.Fiber Run.C05', terms, per_file=ctx.scale(10, 40), prelude='Open Scope Q_scope.')
     for (how, c, impl), model in zip(post, lines):
         if callable(how):
             how(ctx, c, impl, model)
